@@ -89,6 +89,7 @@ fn run_lines() {
             "evict" => c14::evict(&mut t),
             "attach" => c12::attach(&mut t),
             "early" => c12::early(&mut t),
+            "commitwin" => c12::commitwin(&mut t),
             "restart" => c13::restart(&mut t),
             "inflight" => c13::inflight(&mut t),
             "realstop" => c13::realstop(&mut t),
@@ -98,6 +99,7 @@ fn run_lines() {
             "walread" => c19::walread(&mut t),
             "pool" => c20::pool(&mut t),
             "mix" => c20::mix(&mut t),
+            "cancelwin" => c20::cancelwin(&mut t),
             "ro" => c17::ro(&mut t),
             "authzdbg" => c17::authzdbg(&mut t),
             "ltx" => c07::ltx(&mut t),
